@@ -31,6 +31,10 @@ type c16Case struct {
 func genC16(t *rapid.T) c16Case {
 	c := c16Case{Cfg: genLimitCfg(t, []string{"aimd", "vegas", "gradient", "gradient2", "settable", "fixed"}, true)}
 	genUnsetSafe(t, &c.Cfg)
+	if c.Cfg.Algo == "aimd" && c.Cfg.Ctor == "" && rapid.IntRange(0, 7).Draw(t, "aimdAtInt32") == 0 {
+		c.Cfg.Initial = math.MaxInt32 - rapid.IntRange(0, 20).Draw(t, "belowMaxInt32") // AIMD has no ceiling: the steps across 2^31-1
+		c.Cfg.IncreaseBy = rapid.SampledFrom([]int{1, 2, 7}).Draw(t, "incrAtInt32")
+	}
 	c.PollEvery = rapid.SampledFrom([]int{0, 0, 1, 3, 7, 1000}).Draw(t, "pollEvery")
 	n := rapid.IntRange(1, 120).Draw(t, "nops")
 	regs := 0
